@@ -38,64 +38,83 @@ mod __verif_kani {
         assert!(t == (c.newlines | c.colons | c.hash | if has_cr { c.carriage_returns } else { 0 }));
     }
 
-    //@ kind=B props=C16 bound=buffer_len=51 fn=find_newline_x86,find_newline_avx2,find_newline_sse2 stubs=avx2_enabled : every 51-byte buffer, every start < len, AVX2 flag nondeterministic: same answer as find_newline_scalar
-    #[kani::proof]
-    #[kani::unwind(54)]
-    #[kani::stub(avx2_enabled, any_bool)]
-    pub fn c16_find_newline() {
-        let b: [u8; N] = kani::any();
-        let start: usize = kani::any();
-        kani::assume(start < N);
-        assert!(find_newline_x86(&b, start) == super::super::find_newline_scalar(&b, start));
-    }
+    // The kernels read through raw pointers at `start + offset`; a symbolic `start` makes every load a symbolic-pointer
+    // dereference and CBMC does not finish. Each kernel is therefore run from two CONCRETE starts (0 and 3, i.e. an aligned
+    // and a misaligned slice) over a fully symbolic 51-byte buffer: 32 + 16 + 3 = one AVX2 iteration, one SSE2 step, a
+    // scalar tail (from start 3: 32 + 16 exactly).
+    macro_rules! c16_newline { ($name:ident, $start:expr) => {
+        #[kani::proof]
+        #[kani::unwind(54)]
+        #[kani::stub(avx2_enabled, any_bool)]
+        pub fn $name() {
+            let b: [u8; N] = kani::any();
+            assert!(find_newline_x86(&b, $start) == super::super::find_newline_scalar(&b, $start));
+        }
+    }; }
+    //@ kind=B props=C16 bound=buffer_len=51,start=0 fn=find_newline_x86,find_newline_avx2,find_newline_sse2 stubs=avx2_enabled : every 51-byte buffer from start 0, AVX2 flag nondeterministic: same answer as find_newline_scalar
+    c16_newline!(c16_find_newline_from0, 0);
+    //@ kind=B props=C16 bound=buffer_len=51,start=3 fn=find_newline_x86,find_newline_avx2,find_newline_sse2 stubs=avx2_enabled : same from start 3
+    c16_newline!(c16_find_newline_from3, 3);
 
-    //@ kind=B props=C16 bound=buffer_len=51 fn=find_quote_or_escape_x86,find_single_quote_x86 stubs=avx2_enabled : every 51-byte buffer, every start < end <= len: same answers as the scalar find_quote_or_escape_scalar / find_single_quote_scalar
-    #[kani::proof]
-    #[kani::unwind(54)]
-    #[kani::stub(avx2_enabled, any_bool)]
-    pub fn c16_find_quotes() {
-        let b: [u8; N] = kani::any();
-        let start: usize = kani::any();
-        let end: usize = kani::any();
-        kani::assume(start < end && end <= N);
-        assert!(find_quote_or_escape_x86(&b, start, end) == super::super::find_quote_or_escape_scalar(&b, start, end));
-        assert!(find_single_quote_x86(&b, start, end) == super::super::find_single_quote_scalar(&b, start, end));
-    }
+    macro_rules! c16_quotes { ($name:ident, $start:expr) => {
+        #[kani::proof]
+        #[kani::unwind(54)]
+        #[kani::stub(avx2_enabled, any_bool)]
+        pub fn $name() {
+            let b: [u8; N] = kani::any();
+            let end: usize = kani::any();
+            kani::assume($start < end && end <= N);
+            assert!(find_quote_or_escape_x86(&b, $start, end) == super::super::find_quote_or_escape_scalar(&b, $start, end));
+            assert!(find_single_quote_x86(&b, $start, end) == super::super::find_single_quote_scalar(&b, $start, end));
+        }
+    }; }
+    //@ kind=B props=C16 bound=buffer_len=51,start=0,every_end fn=find_quote_or_escape_x86,find_single_quote_x86 stubs=avx2_enabled : every 51-byte buffer, start 0, every end <= len: same answers as the scalar find_quote_or_escape_scalar / find_single_quote_scalar
+    c16_quotes!(c16_find_quotes_from0, 0);
+    //@ kind=B props=C16 tier=thorough bound=buffer_len=51,start=3,every_end fn=find_quote_or_escape_x86,find_single_quote_x86 stubs=avx2_enabled : same from start 3
+    c16_quotes!(c16_find_quotes_from3, 3);
 
-    //@ kind=B props=C16 bound=buffer_len=51 fn=count_leading_spaces_x86 stubs=avx2_enabled : every 51-byte buffer, every start < len: same answer as count_leading_spaces_scalar
-    #[kani::proof]
-    #[kani::unwind(54)]
-    #[kani::stub(avx2_enabled, any_bool)]
-    pub fn c16_count_leading_spaces() {
-        let b: [u8; N] = kani::any();
-        let start: usize = kani::any();
-        kani::assume(start < N);
-        let mut want = 0; let mut i = start;
-        while i < N && b[i] == b' ' { want += 1; i += 1; }
-        assert!(count_leading_spaces_x86(&b, start) == want);
-    }
+    macro_rules! c16_spaces { ($name:ident, $start:expr) => {
+        #[kani::proof]
+        #[kani::unwind(54)]
+        #[kani::stub(avx2_enabled, any_bool)]
+        pub fn $name() {
+            let b: [u8; N] = kani::any();
+            let mut want = 0; let mut i = $start;
+            while i < N && b[i] == b' ' { want += 1; i += 1; }
+            assert!(count_leading_spaces_x86(&b, $start) == want);
+        }
+    }; }
+    //@ kind=B props=C16 bound=buffer_len=51,start=0 fn=count_leading_spaces_x86 stubs=avx2_enabled : every 51-byte buffer from start 0: the number of leading spaces (== count_leading_spaces_scalar)
+    c16_spaces!(c16_count_leading_spaces_from0, 0);
+    //@ kind=B props=C16 bound=buffer_len=51,start=3 fn=count_leading_spaces_x86 stubs=avx2_enabled : same from start 3
+    c16_spaces!(c16_count_leading_spaces_from3, 3);
 
-    //@ kind=B props=C16 bound=buffer_len=51 fn=yaml::simd::x86::parse_anchor_name,parse_anchor_name_avx2 stubs=avx2_enabled : every 51-byte buffer, every start <= len: same answer as scalar::parse_anchor_name_scalar
-    #[kani::proof]
-    #[kani::unwind(54)]
-    #[kani::stub(avx2_enabled, any_bool)]
-    pub fn c16_parse_anchor_name() {
-        let b: [u8; N] = kani::any();
-        let start: usize = kani::any();
-        kani::assume(start <= N);
-        assert!(parse_anchor_name(&b, start) == super::super::scalar::parse_anchor_name_scalar(&b, start));
-    }
+    macro_rules! c16_anchor { ($name:ident, $start:expr) => {
+        #[kani::proof]
+        #[kani::unwind(54)]
+        #[kani::stub(avx2_enabled, any_bool)]
+        pub fn $name() {
+            let b: [u8; N] = kani::any();
+            assert!(parse_anchor_name(&b, $start) == super::super::scalar::parse_anchor_name_scalar(&b, $start));
+        }
+    }; }
+    //@ kind=B props=C16 bound=buffer_len=51,start=0 fn=yaml::simd::x86::parse_anchor_name,parse_anchor_name_avx2 stubs=avx2_enabled : every 51-byte buffer from start 0: same answer as scalar::parse_anchor_name_scalar
+    c16_anchor!(c16_parse_anchor_name_from0, 0);
+    //@ kind=B props=C16 tier=thorough bound=buffer_len=51,start=3 fn=yaml::simd::x86::parse_anchor_name,parse_anchor_name_avx2 stubs=avx2_enabled : same from start 3
+    c16_anchor!(c16_parse_anchor_name_from3, 3);
 
-    //@ kind=B props=C16 bound=buffer_len=51,min_indent<=6 fn=yaml::simd::x86::find_block_scalar_end stubs=avx2_enabled : every 51-byte buffer, every start and min_indent <= 6: same answer as scalar::find_block_scalar_end_scalar
-    #[kani::proof]
-    #[kani::unwind(54)]
-    #[kani::stub(avx2_enabled, any_bool)]
-    pub fn c16_find_block_scalar_end() {
-        let b: [u8; N] = kani::any();
-        let start: usize = kani::any();
-        let mi: usize = kani::any();
-        kani::assume(start <= N && mi <= 6);
-        let want = if start >= N { N } else { super::super::scalar::find_block_scalar_end_scalar(&b, start, mi) };
-        assert!(find_block_scalar_end(&b, start, mi) == Some(want));
-    }
+    macro_rules! c16_block { ($name:ident, $start:expr, $mi:expr) => {
+        #[kani::proof]
+        #[kani::unwind(54)]
+        #[kani::stub(avx2_enabled, any_bool)]
+        pub fn $name() {
+            let b: [u8; N] = kani::any();
+            let want = super::super::scalar::find_block_scalar_end_scalar(&b, $start, $mi);
+            assert!(find_block_scalar_end(&b, $start, $mi) == Some(want));
+        }
+    }; }
+    //@ kind=B props=C16 bound=buffer_len=51,start=0,min_indent=2 fn=yaml::simd::x86::find_block_scalar_end stubs=avx2_enabled : every 51-byte buffer from start 0 with min_indent 2: same answer as scalar::find_block_scalar_end_scalar
+    c16_block!(c16_find_block_scalar_end_from0, 0, 2);
+    //@ kind=B props=C16 tier=thorough bound=buffer_len=51,start=3,min_indent=4 fn=yaml::simd::x86::find_block_scalar_end stubs=avx2_enabled : same from start 3 with min_indent 4
+    c16_block!(c16_find_block_scalar_end_from3, 3, 4);
 }
